@@ -49,6 +49,9 @@ TEXT_FAULTS = [
      "cA _ cB > cL:(1 3) {component {a.ref = @1; b.ref = @3}} cC:3 _;", "LIG", "LIG", {"2144"}),
     ("component_ref_out_of_range", "sub", "cA cB > cL:(1 2) {comp.a.ref = @1; comp.b.ref = @7} _;",
      "cA cB > cL:(1 2) {comp.a.ref = @1; comp.b.ref = @2} _;", "LIG", "LIG", {"2142"}),
+    ("component_ref_to_linebreak_item", "sub", "cA cB > cL:(1 3) {component {a.ref = @1; b.ref = @2}} _ / _ # _;",
+     "cA cB > cL:(1 3) {component {a.ref = @1; b.ref = @3}} _ / _ # _;", "LIG", "LIG", {"2143"}),
+    ("attach_to_linebreak_item", "pos", "cA {attach.to = @2} / _ # cB;", "cA {attach.to = @3} / _ # cB;", "", "", {"2143"}),
     ("attr_value_from_inserted_item", "sub", "_ cA > cC:2 cB {user1 = @1.user1};", "_ cA > cC:2 cB {user1 = @2.user1};", "", "", {"2141"}),
     ("constraint_reads_inserted_item", "sub", "_ cA > cC:2 cB / _ _ {@1.user1 == 1};", "_ cA > cC:2 cB / _ _ {@2.user1 == 1};", "", "", {"2141"}),
     ("attribute_wrong_role_feature", "sub", "cA > cB {f1 = cC};", "cA > cB {user1 = 1};", "", "", None),
